@@ -1,2 +1,102 @@
-/-! line-protocol driver for property C12 (stub) -/
-def main (_args : List String) : IO Unit := pure ()
+import MirVerif.Model.ReduceFast
+/-! line-protocol driver for property C12: the same lines as harness/c12_reduce.c
+     E <hex>   -> "E 1 <hex of model encoder output>"
+     D <hex>   -> "D <ok> <hex of decoded bytes>"   (ok = 0: "D 0 -"; a model `oob` prints "D oob -")
+     G <spec>  -> like E on generated data (rep:/lcg:/mix:, same generators as the harness)
+     X <spec>  -> "X 1 <ok_dec> <same> <len>"  model encoder followed by model decoder -/
+open MirVerif.Reduce
+
+def hexDigit (c : Char) : Option Nat :=
+  if '0' ≤ c ∧ c ≤ '9' then some (c.toNat - '0'.toNat)
+  else if 'a' ≤ c ∧ c ≤ 'f' then some (c.toNat - 'a'.toNat + 10)
+  else if 'A' ≤ c ∧ c ≤ 'F' then some (c.toNat - 'A'.toNat + 10)
+  else none
+
+def parseHex (s : String) : List UInt8 := Id.run do
+  if s.startsWith "-" then return []
+  let mut out : Array UInt8 := #[]
+  let mut hi : Option Nat := none
+  for c in s.toList do
+    match hexDigit c with
+    | none => break
+    | some v =>
+      match hi with
+      | none => hi := some v
+      | some h => out := out.push (UInt8.ofNat (h * 16 + v)); hi := none
+  return out.toList
+
+def hexChars : Array Char := "0123456789abcdef".toList.toArray
+
+def toHex (bs : List UInt8) : String :=
+  if bs.isEmpty then "-" else
+  String.ofList (bs.foldr (fun b acc => hexChars[b.toNat / 16]! :: hexChars[b.toNat % 16]! :: acc) [])
+
+def lcgNext (x : UInt64) : UInt64 := x * 6364136223846793005 + 1442695040888963407
+
+def genData (spec : String) : Option (List UInt8) :=
+  match spec.splitOn ":" with
+  | ["rep", n, pat] =>
+    let p := (parseHex pat).toArray
+    let n := n.toNat!
+    if p.size = 0 then (if n = 0 then some [] else none) else
+    some ((List.range n).map fun i => p[i % p.size]!)
+  | ["lcg", n, seed, mod] => Id.run do
+    let n := n.toNat!
+    let mod := mod.toNat!
+    if mod = 0 then return none
+    let mut x : UInt64 := UInt64.ofNat seed.toNat!
+    let mut out : Array UInt8 := Array.mkEmpty n
+    for _ in [0:n] do
+      x := lcgNext x
+      out := out.push (UInt8.ofNat ((x >>> 33).toNat % mod))
+    return some out.toList
+  | ["mix", n, seed, mod, run] => Id.run do
+    let n := n.toNat!
+    let mod := mod.toNat!
+    let run := run.toNat!
+    if mod = 0 ∨ run = 0 then return none
+    let mut x : UInt64 := UInt64.ofNat seed.toNat!
+    let mut out : Array UInt8 := Array.mkEmpty n
+    for i in [0:n] do
+      if (i / run) % 2 == 1 then
+        out := out.push out[i - run]!
+      else
+        x := lcgNext x
+        out := out.push (UInt8.ofNat ((x >>> 33).toNat % mod))
+    return some out.toList
+  | _ => none
+
+def encLine (d : List UInt8) : String := "E 1 " ++ toHex (encode mirCfg d)
+
+def step (line : String) : String :=
+  let op := line.take 1
+  let arg := (line.drop 2).toString
+  if op == "E" then encLine (parseHex arg)
+  else if op == "G" then
+    match genData arg with
+    | some d => encLine d
+    | none => "? bad spec"
+  else if op == "X" then
+    match genData arg with
+    | some d =>
+      match decodeF mirCfg (encode mirCfg d) with
+      | .ok d' => s!"X 1 1 {if d' = d then 1 else 0} {d.length}"
+      | .error _ => s!"X 1 0 0 {d.length}"
+    | none => "? bad spec"
+  else if op == "D" then
+    match decodeF mirCfg (parseHex arg) with
+    | .ok d => "D 1 " ++ toHex d
+    | .error .reject => "D 0 -"
+    | .error .oob => "D oob -"
+  else "? bad op"
+
+partial def loop (h : IO.FS.Stream) (out : IO.FS.Stream) : IO Unit := do
+  let line ← h.getLine
+  if line.isEmpty then return ()
+  let l := line.trimAscii.toString
+  if l.length ≥ 2 then
+    out.putStrLn (step l)
+    out.flush
+  loop h out
+
+def main (_args : List String) : IO Unit := do loop (← IO.getStdin) (← IO.getStdout)
